@@ -16,6 +16,51 @@ std::uint64_t vfh_num_cases(bool thorough);
 void vfh_run_case(std::uint64_t idx, vf::Rng& rng);
 void vfh_selftest();
 
+#ifdef VF_FUZZ
+// libFuzzer entry points: the input bytes choose the case index and feed the harness' Rng; the monitors are
+// the same functions as in the seeded mode.  JSON lines go to stdout, the summary is printed at exit.
+static void vf_fuzz_done()
+{
+    vf::Ctx& c = vf::ctx();
+    std::string cs = "{", vk = "{";
+    for (auto const& kv : c.counters) { if (cs.size() > 1) cs += ','; cs += '"' + vf::jesc(kv.first) + "\":" + std::to_string(kv.second); }
+    for (auto const& kv : c.viol_per_key) { if (vk.size() > 1) vk += ','; vk += '"' + vf::jesc(kv.first) + "\":" + std::to_string(kv.second); }
+    cs += "}"; vk += "}";
+    if (!c.sigfile.empty())
+        if (FILE* f = std::fopen(c.sigfile.c_str(), "wb")) { for (std::uint64_t s : c.sigs) std::fwrite(&s, sizeof s, 1, f); std::fclose(f); }
+    std::printf("{\"t\":\"done\",\"variant\":\"%s\",\"cases\":%" PRIu64 ",\"evaluations\":%" PRIu64 ",\"violations\":%" PRIu64
+        ",\"nontrivial\":%zu,\"counters\":%s,\"viol_keys\":%s,\"samples\":[]}\n", vf::jesc(c.variant).c_str(), c.cur_case, c.evaluations, c.violations,
+        c.sigs.size(), cs.c_str(), vk.c_str());
+    std::fflush(stdout);
+}
+
+extern "C" int LLVMFuzzerInitialize(int*, char***)
+{
+    vf::Ctx& c = vf::ctx();
+    if (char const* s = std::getenv("VERIF_SEED")) c.seed = std::strtoull(s, 0, 10);
+    if (char const* s = std::getenv("VF_SIGFILE")) c.sigfile = s;
+    if (char const* s = std::getenv("VF_VARIANT")) c.variant = s;
+    c.thorough = false;
+    vfh_selftest();
+    std::atexit(vf_fuzz_done);
+    return 0;
+}
+
+extern "C" int LLVMFuzzerTestOneInput(unsigned char const* data, std::size_t size)
+{
+    vf::Ctx& c = vf::ctx();
+    if (size < 2) return 0;
+    std::uint64_t idx = data[0] | (std::uint64_t(data[1]) << 8);
+    c.cur_case++;
+    vf::count("fuzz_inputs");
+    vf::Rng rng(vf::mix(c.seed, idx));
+    rng.src = data + 2;
+    rng.src_len = size - 2;
+    try { vfh_run_case(idx, rng); }
+    catch (std::exception const& e) { vf::viol(std::string("exception:") + typeid(e).name(), vf::J().s("what", e.what())); }
+    return 0;
+}
+#else
 int main(int argc, char** argv)
 {
     vf::Ctx& c = vf::ctx();
@@ -85,5 +130,6 @@ int main(int argc, char** argv)
     std::fflush(stdout);
     return 0;
 }
+#endif
 
 #endif
